@@ -10,7 +10,7 @@
 From Coq Require Import ZArith NArith List Bool.
 From Falcon.lib Require Import PyStr.
 From Falcon.gen Require Import ConstsC01.
-From Falcon.C01 Require Import Model Spec ProofsBase ProofsGen ProofsHead ProofsCorrect ProofsWf ProofsRouter.
+From Falcon.C01 Require Import Model Spec ProofsBase ProofsGen ProofsHead ProofsCorrect ProofsWf ProofsCompiles ProofsRouter.
 Import ListNotations.
 
 (* Compiler correctness: for every well-formed tree and every path, running the generated
@@ -85,23 +85,30 @@ Theorem C01_lazy_compile_transparent : forall cinst cmulti ops uri,
 Proof. exact lazy_compile_transparent. Qed.
 Print Assumptions C01_lazy_compile_transparent.
 
-(* The full lookup statement: for every history and every request path, router.find returns
-   (never raises) the depth-first walk's answer on the tree of the accepted templates.
+(* A well-formed tree compiles: none of the asserts of _generate_ast trips, every converter
+   instantiates, and every literal / field name survives the quoting of the generated source. *)
+Theorem C01_wf_compiles : forall cinst cmulti roots,
+  wf cinst cmulti roots = true ->
+  t_ok (snd (compile cinst cmulti roots)) = true /\
+  src_ok true (fst (compile cinst cmulti roots)) = true.
+Proof. exact wf_compiles. Qed.
+Print Assumptions C01_wf_compiles.
 
-   FULL STATEMENT (not yet proved in this generality):
-     forall ops uri, snd (router_find ... (run_ops router0 ops) uri) = Ret (dfs (tree_of ops) uri)
-   PROVED (partial): the same under [compiles_ok (tree_of ops)], i.e. no assert / converter
-   instantiation inside _generate_ast failed and every literal / field name survives the
-   quoting of the generated source.  What is missing is the lemma
-     wf roots = true -> compiles_ok roots = true
-   (a third induction over the generator); the harness evaluates compiles_ok on every tree
-   it explores, and the run-time counterpart (find() raising) is a binding check. *)
-Theorem C01_find_spec_partial : forall cinst cmulti ops uri,
-  compiles_ok cinst cmulti (tree_of cinst cmulti ops) = true ->
+(* The full lookup statement: for every history of add_route calls (accepted and rejected,
+   with and without the compile flag, interleaved with lookups) and every request path,
+   router.find returns — never raises — the depth-first walk's answer on the tree of the
+   accepted templates. *)
+Theorem C01_find_spec : forall cinst cmulti ops uri,
   snd (router_find cinst cmulti literal_src_quoted (run_ops cinst cmulti router0 ops) uri)
   = Ret (dfs cinst cmulti (tree_of cinst cmulti ops) uri).
-Proof. exact find_spec. Qed.
-Print Assumptions C01_find_spec_partial.
+Proof. exact find_spec_full. Qed.
+Print Assumptions C01_find_spec.
+
+(* Lookups never fail with an internal error. *)
+Theorem C01_find_no_crash : forall cinst cmulti ops uri,
+  snd (router_find cinst cmulti literal_src_quoted (run_ops cinst cmulti router0 ops) uri) <> Crash.
+Proof. exact find_no_crash. Qed.
+Print Assumptions C01_find_no_crash.
 
 (* The source text: literals are emitted with repr() and identifiers are matched with \Z
    (both regenerated from the staged sources; these two break when the code is reverted). *)
@@ -133,10 +140,10 @@ Proof. exact match_pieces_keys. Qed.
 Print Assumptions C01_match_groups_are_fields.
 
 (* The oracle the harness applies to the implementation's answers accepts the model's. *)
-Theorem C01_oracle_sound : forall cinst cmulti ops uri r,
-  snd (router_find cinst cmulti literal_src_quoted (run_ops cinst cmulti router0 ops) uri) = Ret r ->
-  compiles_ok cinst cmulti (tree_of cinst cmulti ops) = true ->
-  find_oracle cinst cmulti (tree_of cinst cmulti ops) uri r = true.
+Theorem C01_oracle_sound : forall cinst cmulti ops uri,
+  exists r,
+    snd (router_find cinst cmulti literal_src_quoted (run_ops cinst cmulti router0 ops) uri) = Ret r /\
+    find_oracle cinst cmulti (tree_of cinst cmulti ops) uri r = true.
 Proof. exact oracle_sound. Qed.
 Print Assumptions C01_oracle_sound.
 
